@@ -320,6 +320,8 @@ def class_case(draw):
         scfg.update({**({'broker_host': host} if host else {}), **({'broker_port': port} if port else {}), **({'base_topic': base} if base else {}), **opts_dict(gopts)})
         if mstructs:
             scfg['mappings'] = mstructs
+        if draw(st.integers(0, 2)) == 0:      # an explicit MQTT client id (client_id=True asks for a random one and is not comparable between two normalisations)
+            tcfg['client_id'] = scfg['client_id'] = draw(st.sampled_from(['edge-7', 'f_abc', 'cam1']))
         if maps: flags.add('options')
         flags.add('whitespace around delimiters')
     elif cls == 'REST':
